@@ -100,6 +100,7 @@ func main() {
 	if *leanDir != "" {
 		writeLean(*leanDir, facts)
 		extractTables2(pkgs, repo, *leanDir, facts)
+		extractPosUses(pkgs, facts, *leanDir)
 	}
 }
 
